@@ -17,7 +17,8 @@ tie:     per directed stream of every simulated connection the op sequence (writ
 oracle:  written from the property text, evaluated on the events the two real connections hand to the
          application (prefix, exactly-once end marker, completeness after a fair phase, no termination, no
          exception; deliberate writes after FIN/reset must raise and change nothing)
-runs:    directed scenarios (DIRECTED: one per defect found so far, each fails when its fix is reverted)
+runs:    directed scenarios (DIRECTED: one per defect found so far, each fails when its fix is reverted, and the
+         family fin-overtakes/<sender>/<stream>/k<1..4>/<v1|v2>: a lone FIN datagram overtakes k data datagrams)
          + PRNG connections (quick 120, thorough 1500); replay: ./check C01 --replay <file> (every witness kind)
 """
 import collections
@@ -128,7 +129,21 @@ def scenario(r):
         "p_key": r.choice([0.0, 0.03, 0.06]),
         "p_cid": r.choice([0.0, 0.03]),
         "p_ping": 0.05,
+        # a write on a stream that already has data becomes: flush, then (in a later call) an empty
+        # write with end_stream=True — the FIN rides alone in its own datagram
+        "p_sepfin": r.choice([0.0, 0.15, 0.4]),
+        # single-datagram reordering: the newest datagram in the network overtakes all the others
+        # and is delivered first, nothing is lost
+        "p_front": r.choice([0.0, 0.1, 0.3]),
     }
+
+
+def search_scenario(name):
+    """failing-input search: no loss / duplication / rebinding, lone FIN datagrams, newest-first reordering"""
+    r = random.Random(f"c01-search/{name}")
+    return {**scenario(r), "steps": 200, "p_app": 0.3, "p_drop": 0.0, "p_dup": 0.0, "p_reorder": r.choice([0.0, 0.2]),
+            "p_rebind": 0.0, "p_reset": 0.0, "p_key": 0.0, "p_cid": 0.0, "sizes": [1, 1000, 1200, 3000],
+            "p_fin": 0.05, "p_sepfin": 0.6, "p_front": r.choice([0.3, 0.6])}
 
 
 def fair_phase(s, done, max_steps=20000):
@@ -238,6 +253,13 @@ def run_conn(conn_seed, sc=None, directed=None, trace=True):
                     if sum(orc.misuse.values()) == n0:
                         orc.bad("write-after-end", f"{k}: send_stream_data after FIN/reset was accepted")
                 return
+            if k in orc.written and len(orc.written[k]) and r.random() < sc.get("p_sepfin", 0.0):
+                s.transmit(ep)                       # the data leaves first …
+                executed.append((s.steps, ep.name, "send_stream_data", sid, 0, True, "separate-fin"))
+                orc.fin.add(k)
+                s.api(ep, "send_stream_data", sid, b"", end_stream=True)   # … the FIN in a later call
+                s.transmit(ep)
+                return
             if k in orc.written and r.random() < sc["p_reset"] * 3:
                 code = r.randrange(1, 100)
                 executed.append((s.steps, ep.name, "reset_stream", sid, code))
@@ -260,6 +282,11 @@ def run_conn(conn_seed, sc=None, directed=None, trace=True):
                 break
             if r.random() < sc["p_app"]:
                 app_action()
+            elif len(s.pending) > 1 and r.random() < sc.get("p_front", 0.0):
+                d = s.pending.pop()                  # the newest datagram overtakes all the others
+                s.now += 0.0005
+                s.log.append(f"front #{d['id']} -> {d['dst'].name}")
+                s.deliver(d)
             else:
                 if not s.adversarial_step(p_drop=sc["p_drop"], p_dup=sc["p_dup"], p_reorder=sc["p_reorder"],
                                           p_timer=sc["p_timer"], p_rebind=sc["p_rebind"]):
@@ -449,6 +476,58 @@ DIRECTED = {"rebind-challenge-lost": directed_rebind_challenge_lost, "key-update
             "key-update-twice": directed_key_update_twice}
 
 
+
+def _drain_sender(s, ep, sid):
+    """let pacing / the congestion window send everything the stream has pending"""
+    s.transmit(ep)
+    for _ in range(40):
+        st = ep.conn._streams.get(sid)
+        if st is None or (not list(st.sender._pending) and not st.sender._pending_eof):
+            return
+        if not s.fire_timer(ep):
+            return
+
+
+def make_fin_overtakes(sender, sid, k):
+    """the application writes k datagrams' worth of data, then — in a LATER call — an empty write with
+    end_stream=True, so the FIN rides alone in its own datagram; the network delivers that one datagram
+    FIRST and then the k data datagrams in order, nothing is lost"""
+    def directed(s, orc, executed):
+        ep = s.client if sender == "client" else s.server
+        key = (ep.name, sid)
+        data = bytes((i * 7 + k) % 256 for i in range(1100 * k))
+        executed.append((s.steps, ep.name, "send_stream_data", sid, len(data), False))
+        orc.written[key] += data
+        s.api(ep, "send_stream_data", sid, data)
+        _drain_sender(s, ep, sid)
+        data_dgrams = [d for d in s.pending if d["dst"] is ep.peer]
+        executed.append((s.steps, ep.name, "send_stream_data", sid, 0, True))
+        orc.fin.add(key)
+        s.api(ep, "send_stream_data", sid, b"", end_stream=True)
+        _drain_sender(s, ep, sid)
+        fin_dgrams = [d for d in s.pending if d["dst"] is ep.peer and d not in data_dgrams]
+        for d in fin_dgrams + data_dgrams:
+            s.pending.remove(d)
+        for d in fin_dgrams + data_dgrams:          # the FIN datagram overtakes the data
+            s.now += 0.0005
+            s.log.append(f"deliver #{d['id']} -> {d['dst'].name}" + (" (FIN first)" if d in fin_dgrams else ""))
+            s.deliver(d)
+    return directed
+
+
+DIRECTED_SC = {}
+for _ver, _vn in ((V1, "v1"), (V2, "v2")):
+    for _sender, _sid in (("client", 0), ("client", 2), ("server", 1), ("server", 3)):
+        for _k in (1, 2, 3, 4):
+            _name = f"fin-overtakes/{_sender}/{_sid}/k{_k}/{_vn}"
+            DIRECTED[_name] = make_fin_overtakes(_sender, _sid, _k)
+            DIRECTED_SC[_name] = {"version": _ver}
+
+
+def directed_scenario(name):
+    return {**scenario(random.Random(0)), "cc": "reno", "version": V1, **DIRECTED_SC.get(name, {})}
+
+
 STARVED_KINDS = ("terminated", "undelivered-bytes", "undelivered-fin")
 
 
@@ -532,13 +611,15 @@ def check_batch(ctx, results):
     ctx.cov["traces_validated_against_impl"] += len(cases)
 
 
-def run_all(ctx, seeds, batch=25):
+def run_all(ctx, seeds, batch=25, directed=True):
     stats = collections.Counter()
     pend = []
-    jobs = [(name, None) for name in DIRECTED] + [(cs, None) for cs in seeds]
+    jobs = ([(name, None) for name in DIRECTED] if directed else []) + [(cs, None) for cs in seeds]
     for cs, _ in jobs:
         if cs in DIRECTED:
-            res = run_conn(cs, sc={**scenario(random.Random(0)), "cc": "reno", "version": V1}, directed=DIRECTED[cs])
+            res = run_conn(cs, sc=directed_scenario(cs), directed=DIRECTED[cs])
+        elif isinstance(cs, str) and cs.startswith("search/"):
+            res = run_conn(cs, sc=search_scenario(cs))
         else:
             res = run_conn(cs)
         orc, tr = res["oracle"], res["tracer"]
@@ -669,9 +750,16 @@ def main(tier):
         "writes after FIN/reset on the same stream are exercised as misuse: they must raise and change nothing",
     ]
     thorough = tier == "thorough"
-    n = 1500 if thorough else 120
+    n = 1500 if thorough else 100
     base = ctx.seed * 1000003
     check_pairs(ctx, thorough)
+
+    def search():
+        """a correspondence / proof obligation broke without an oracle witness: hunt for a failing input
+        with lone-FIN writes and newest-first single-datagram reordering on an otherwise perfect network"""
+        st = run_all(ctx, [f"search/{ctx.seed}/{i}" for i in range(400 if thorough else 150)], directed=False)
+        ctx.notes["search_stats"] = {k: v for k, v in st.items() if k.startswith("violation") or k == "connections"}
+    ctx.search = search
     stats = run_all(ctx, [base + i for i in range(n)])
     ctx.notes["stats"] = dict(stats)
     ctx.cov["rule"] = (
@@ -693,7 +781,9 @@ class _ReplayCtx:
 
 def _rerun(cs):
     if cs in DIRECTED:
-        return run_conn(cs, sc={**scenario(random.Random(0)), "cc": "reno", "version": V1}, directed=DIRECTED[cs])
+        return run_conn(cs, sc=directed_scenario(cs), directed=DIRECTED[cs])
+    if isinstance(cs, str) and cs.startswith("search/"):
+        return run_conn(cs, sc=search_scenario(cs))
     return run_conn(int(cs) if not isinstance(cs, int) else cs)
 
 
